@@ -114,6 +114,7 @@ func TestCheck(t *testing.T) {
 		"selftest.models_ok"})
 	rec.Note("exhaustive", fmt.Sprintf("ring: all %d^%d sequences over the reduced alphabet from each of the %d initial states (New(a),New(b)), a,b in 0..%d; buffered: all valid AppendBack/RemoveFront sequences of length %d for the 36 size pairs. The linearizability part is sampled, not exhaustive.", len(ringAlphabet), ringExhLen, (ringExhInit+1)*(ringExhInit+1), ringExhInit, bufExhLen))
 	rec.Note("gomaxprocs", runtime.GOMAXPROCS(0))
+	rec.Planned(len(gs))
 	timing := map[string]time.Duration{}
 	defer func() {
 		if os.Getenv("C14_TIMING") != "" {
